@@ -539,6 +539,9 @@ pub fn stream_mbuilder(out: &mut Out, seed: u64, thorough: bool) {
         vec![s("Ь")],
         vec![s("τ"), s("Ĭx")],
         vec![s("a"), s("š")],
+        // names equal up to ASCII case, or one a prefix of the other, are different (and legal) names (round 12)
+        vec![s("k"), s("K")],
+        vec![s("kk"), s("k")],
     ];
     let maxlen = if thorough { 4 } else { 3 };
     for (ni, names) in name_lists.iter().enumerate() {
@@ -781,8 +784,12 @@ pub fn stream_model(out: &mut Out, seed: u64, thorough: bool) {
     let mut rng = Rng::new(seed ^ 0x1617);
     // (a) exhaustive: every ordered subset (size 1..3) of up to 4 names as the parameter list of one
     //     function, for every rotation of the model's parameter list, with every derivative order
-    let all: Vec<String> = ["a", "b", "c", "d"].iter().map(|x| s(x)).collect();
-    for p in 1..=4usize {
+    // ... over two alphabets: ordinary names, and names that a "lenient" lookup would confuse - equal up
+    // to ASCII case, up to surrounding blanks, or one a prefix of the other (round 12)
+    let alphabets: [[&str; 4]; 2] = [["a", "b", "c", "d"], ["k", "K", "k ", "kk"]];
+    for (ai, alphabet) in alphabets.iter().enumerate() {
+    let all: Vec<String> = alphabet.iter().map(|x| s(x)).collect();
+    for p in 1..=(if ai == 0 { 4usize } else { 3usize }) {
         let base_names: Vec<String> = all[..p].to_vec();
         for rot in 0..p {
             let mut names = base_names.clone();
@@ -849,6 +856,7 @@ pub fn stream_model(out: &mut Out, seed: u64, thorough: bool) {
                 }
             }
         }
+    }
     }
     // (b) every arity 1..10 with a random ordered subset of 10..12 names
     let reps = if thorough { 40 } else { 6 };
@@ -984,6 +992,23 @@ pub fn stream_model(out: &mut Out, seed: u64, thorough: bool) {
                 if let MCall::X(n) = c {
                     *n = 0;
                 }
+            }
+        }
+        // one session in eight (cycled): an initial guess of the WRONG length is given directly after a
+        // function or derivative call (the builder is then in its function-building state), followed
+        // later by the regular one: the session is invalid, and if a model comes out nevertheless its
+        // evaluations are observed (round 12)
+        if i % 8 == 5 {
+            let pos: Vec<usize> = calls
+                .iter()
+                .enumerate()
+                .filter(|(_, c)| matches!(c, MCall::Function(_, _) | MCall::Deriv(_, _)))
+                .map(|(k, _)| k)
+                .collect();
+            if !pos.is_empty() {
+                let at = pos[(i / 8) % pos.len()] + 1;
+                let len = [p + 1, p.saturating_sub(1), 0][(i / 8) % 3];
+                calls.insert(at, MCall::Init((0..len).map(|k| 1 + k as i64).collect()));
             }
         }
         let n = calls
